@@ -30,7 +30,7 @@ pub fn exec(line: &str) -> String {
 }
 
 pub fn encode(h: &DataTelegramHeader, pdu: &[u8]) -> Vec<u8> {
-    let mut buf = [0u8; 256];
+    let mut buf = [0xA5u8; 256]; // a dirty transmit buffer (real PHYs reuse theirs)
     let r = TelegramTx::new(&mut buf).send_data_telegram(h.clone(), pdu.len(), |b| b.copy_from_slice(pdu));
     buf[..r.bytes_sent()].to_vec()
 }
